@@ -271,6 +271,12 @@ class Stream(Iterable[Elem]):
                 condition is checked first.
         """
 
+        # `isinstance` takes a type or a tuple of types, not a list (the doc above allows `[]`).
+        if isinstance(keep_exc_types, list):
+            keep_exc_types = tuple(keep_exc_types)
+        if isinstance(drop_exc_types, list):
+            drop_exc_types = tuple(drop_exc_types)
+
         def foo(x):
             if isinstance(x, BaseException):
                 if keep_exc_types is not None and isinstance(x, keep_exc_types):
